@@ -14,7 +14,24 @@ if __name__ == "__main__":
         mod, fn = target.split(":")
         r = getattr(importlib.import_module(mod), fn)(tier, seed)
     except Exception as e:
-        r = {"status": "error", "detail": "%r\n%s" % (e, traceback.format_exc(limit=10))}
+        # an exception that travelled through the code under test (a frame inside $OSYRIS_SRC) while an oracle was
+        # exercising it natively is an observed failure of the real code, with the traceback as the witness; anything
+        # else is a defect of the oracle itself (checker error)
+        src = os.path.realpath(os.environ.get("OSYRIS_SRC", "/repo/src"))
+        frames = traceback.extract_tb(e.__traceback__)
+        through = [f for f in frames if os.path.realpath(f.filename).startswith(src)]
+        if through:
+            import re
+
+            m = re.search(r"[cC](\d\d)", target.split(":")[1]) or re.search(r"[cC](\d\d)", target.split(":")[0])
+            prop = ("C" + m.group(1)) if m else "native"
+            where = "%s:%d in %s" % (os.path.relpath(through[-1].filename, src), through[-1].lineno, through[-1].name)
+            name = "%s.native.unexpected_exception" % prop
+            r = {"status": "violation", "cases": 1, "distinct": 1, "kind": "bounded-native",
+                 "violations": [{"name": name, "input": {"traceback": traceback.format_exc(limit=12)[-1500:]},
+                                 "observed": "the real code raised %r at %s while the native oracle was calling it" % (e, where)}]}
+        else:
+            r = {"status": "error", "detail": "%r\n%s" % (e, traceback.format_exc(limit=10))}
     finally:
         shutil.rmtree(home, ignore_errors=True)
     print("@@RESULT " + json.dumps(r, default=str))
